@@ -571,14 +571,16 @@ def ob_pauli(q, probs):
     return Obligation("constructor.pauli_channel.kraus_choi_direct_agree", cfg, build, call, oracle, exact_sqrt=True)
 
 
-def ob_pauli_reject(probs, should_raise):
-    cfg = {"prob": [str(p) for p in probs], "should_raise": should_raise}
+def ob_pauli_reject(probs, should_raise, form="ndarray"):
+    cfg = {"prob": [str(p) for p in probs], "should_raise": should_raise, "prob_given_as": form}
 
     def build(b):
         return {"X": b.array("X", (2, 2), "c")}
 
     def call(i):
-        pauli_channel(np.array([float(p) for p in probs]), False, i["X"])
+        pv = [float(p) for p in probs]
+        pv = np.array(pv) if form == "ndarray" else (tuple(pv) if form == "tuple" else pv)
+        pauli_channel(pv, False, i["X"])
         return [False]
 
     def oracle(i):
@@ -664,8 +666,10 @@ def obligations(tier):
         obs.append(ob_pauli(2, [F(1, 16)] * 16))
         # dyadic weights only: the Choi matrix is accumulated in float64 (scipy sparse), exact for dyadics
         obs.append(ob_pauli(2, [F(0), F(1, 2), F(0), F(1, 4)] + [F(1, 64)] * 8 + [F(1, 32)] * 4))
-    obs.append(ob_pauli_reject([F(1, 2), F(1, 2), F(1, 2), F(-1, 2)], True))
-    obs.append(ob_pauli_reject([F(1, 2), F(1, 4), F(1, 8), F(1, 16)], True))
-    obs.append(ob_pauli_reject([F(1, 2), F(1, 2)], True))
-    obs.append(ob_pauli_reject([F(1, 4)] * 4, False))
+    for form in ("ndarray", "list", "tuple"):
+        obs.append(ob_pauli_reject([F(1, 2), F(1, 2), F(1, 2), F(-1, 2)], True, form))
+        obs.append(ob_pauli_reject([F(1, 2), F(1, 4), F(1, 8), F(1, 16)], True, form))
+        obs.append(ob_pauli_reject([F(1, 2)] * 4, True, form))
+        obs.append(ob_pauli_reject([F(1, 2), F(1, 2)], True, form))
+        obs.append(ob_pauli_reject([F(1, 4)] * 4, False, form))
     return obs
